@@ -28,6 +28,11 @@ def generate(rng, tier, idx):
                 o["owner_slot"] = 5
     path = "/sim/d/.treeinfo"
     keys = gen_ti.top_keys(K)
+    if len(keys) > 1 and rng.random() < 0.3:
+        # the file lives where a compose keeps it: <variant>/<arch>/os/.treeinfo - for a variant that is NOT the first one
+        d = "/sim/compose/%s/%s/os" % (pick(rng, sorted(keys)[1:]), K["tree"]["arch"])
+        ops.append({"op": "fs_mkdir", "path": d})
+        path = d + "/.treeinfo"
     tops = [v for v in K["vars"] if v["parent"] is None]
     for cycle in range(rng.randint(2, 5)):
         d = {"op": "dump", "path": path}
